@@ -9,10 +9,14 @@ package props
 //     model's, on both sides. The service side is additionally driven by a raw client (ExecProto).
 
 import (
+	"context"
 	"encoding/json"
 	"fmt"
 	"strings"
 	"testing"
+	"time"
+
+	"github.com/varlink/go/varlink"
 
 	"pgregory.net/rapid"
 )
@@ -319,4 +323,169 @@ func TestC02Concurrent(t *testing.T) {
 		return err
 	}
 	RunCases(t, p, "C02Concurrent", true, next)
+}
+
+// ---------------------------------------------------------------------------
+// client pipelining: several calls are sent before their replies are read, replies of different calls arrive
+// in one segment, and a further call is sent while replies are still buffered on the client side.
+
+// PipeCase: n calls, each answered by its own scripted replies; Order is the interleaving of "s<i>" (send call i)
+// and "r<i>" (receive all replies of call i); replies of calls that are outstanding together are delivered coalesced.
+type PipeCase struct {
+	Docs    []json.RawMessage `json:"docs"`  // reply document of call i
+	Conts   []int             `json:"conts"` // number of continues-replies of call i (call sent with more if > 0)
+	Order   []string          `json:"order"`
+	CutsS2C []int             `json:"cuts_s2c,omitempty"`
+	Hold    bool              `json:"hold"` // the proxy holds the replies of all outstanding calls and delivers them together
+}
+
+func execPipeline(c PipeCase, bound time.Duration) error {
+	bound *= WatchdogScale()
+	env, err := startE2E([]string{"x.y"}, "pipe", false)
+	if err != nil {
+		return err
+	}
+	conn, proxy, err := env.dial(E2ECase{Transport: "pipe", Proxy: true, CutsS2C: c.CutsS2C}, bound)
+	if err != nil {
+		env.svc.Shutdown()
+		env.cleanup()
+		return err
+	}
+	defer func() {
+		conn.Close()
+		proxy.close()
+		env.stop(bound)
+	}()
+	ctx, cancel := context.WithTimeout(context.Background(), bound)
+	defer cancel()
+	recvs := map[int]func(context.Context, interface{}) (uint64, error){}
+	outstanding := 0 // reply frames sent by the service but not yet read by the client
+	gated := 0       // reply frames the proxy is holding back
+	framesOf := func(i int) int { return c.Conts[i] + 1 }
+	for _, o := range c.Order {
+		var i int
+		fmt.Sscanf(o[1:], "%d", &i)
+		if i < 0 || i >= len(c.Docs) {
+			return fmt.Errorf("HARNESS: bad order entry %q", o)
+		}
+		if o[0] == 's' {
+			var ops []Op
+			for k := 0; k < c.Conts[i]; k++ {
+				ops = append(ops, Op{Op: "reply", Continues: true, P: json.RawMessage(fmt.Sprintf(`{"call":%d,"cont":%d}`, i, k))})
+			}
+			ops = append(ops, Op{Op: "reply", P: c.Docs[i]})
+			flags := uint64(0)
+			if c.Conts[i] > 0 {
+				flags = varlink.More
+			}
+			outstanding += framesOf(i)
+			if c.Hold {
+				proxy.S2C.closeGate() // replies are held back until the next receive, then delivered together
+				gated += framesOf(i)
+			}
+			r, serr := conn.Send(ctx, "x.y.M", mustScript(i, nil, ops...), flags)
+			if serr != nil {
+				return fmt.Errorf("Send of call %d failed: %v", i, serr)
+			}
+			recvs[i] = r
+			continue
+		}
+		r := recvs[i]
+		if r == nil {
+			return fmt.Errorf("HARNESS: receive before send for call %d", i)
+		}
+		if gated > 0 {
+			// wait until the service has answered everything sent so far, then deliver it all in one go
+			dl := time.Now().Add(bound)
+			for proxy.S2C.pendingFrames() < gated {
+				if time.Now().After(dl) {
+					return fmt.Errorf("the service answered only %d of %d reply frames of the pipelined calls within %v", proxy.S2C.pendingFrames(), gated, bound)
+				}
+				time.Sleep(50 * time.Microsecond)
+			}
+			gated = 0
+			proxy.S2C.openGate()
+		}
+		for k := 0; k <= c.Conts[i]; k++ {
+			var raw json.RawMessage
+			fl, rerr := r(ctx, &raw)
+			if rerr != nil {
+				if isTimeoutErr(rerr) {
+					return fmt.Errorf("pipelined calls (order %v): receive %d of call %d did not return within %v: a reply was lost", c.Order, k, i, bound)
+				}
+				return fmt.Errorf("pipelined calls (order %v): receive %d of call %d failed: %v", c.Order, k, i, rerr)
+			}
+			want := c.Docs[i]
+			wantCont := false
+			if k < c.Conts[i] {
+				want, wantCont = json.RawMessage(fmt.Sprintf(`{"call":%d,"cont":%d}`, i, k)), true
+			}
+			if d := JSONDiff(want, raw); d != "" {
+				return fmt.Errorf("pipelined calls (order %v): receive %d of call %d yielded %s, the handler of that call replied %s (replies are read in the order the calls were sent): %s", c.Order, k, i, Preview(raw), Preview(want), d)
+			}
+			if (fl&varlink.Continues != 0) != wantCont {
+				return fmt.Errorf("pipelined calls: receive %d of call %d: Continues=%v, want %v", k, i, fl&varlink.Continues != 0, wantCont)
+			}
+			outstanding--
+		}
+	}
+	return nil
+}
+
+func genPipe(t *rapid.T) PipeCase {
+	n := rapid.IntRange(2, 5).Draw(t, "ncalls")
+	c := PipeCase{Hold: rapid.IntRange(0, 3).Draw(t, "hold") != 0, CutsS2C: genProxyCuts(t, "s2c")}
+	for i := 0; i < n; i++ {
+		c.Docs = append(c.Docs, json.RawMessage(fmt.Sprintf(`{"call":%d,"doc":%s}`, i, DefaultJSON.Object(t, 2))))
+		k := 0
+		if rapid.IntRange(0, 3).Draw(t, "more") == 0 {
+			k = rapid.IntRange(1, 3).Draw(t, "k")
+		}
+		c.Conts = append(c.Conts, k)
+	}
+	// a random interleaving in which every call is sent before it is received and receives keep the send order
+	sent, recvd := 0, 0
+	for recvd < n {
+		canSend := sent < n
+		canRecv := recvd < sent
+		if canSend && (!canRecv || rapid.IntRange(0, 2).Draw(t, "sendfirst") != 0) {
+			c.Order = append(c.Order, fmt.Sprintf("s%d", sent))
+			sent++
+		} else {
+			c.Order = append(c.Order, fmt.Sprintf("r%d", recvd))
+			recvd++
+		}
+	}
+	if c.Hold {
+		// with held replies a receive can only proceed once everything outstanding has been delivered, which needs
+		// all sends issued before it to have completed - true by construction (sends are synchronous)
+	}
+	return c
+}
+
+func checkPipe(c PipeCase, st *Stats) error {
+	err := execPipeline(c, protoBound)
+	inter := false
+	for i := 1; i < len(c.Order); i++ {
+		if c.Order[i][0] == 's' && c.Order[i-1][0] == 'r' {
+			inter = true // a call sent while earlier replies may still be buffered
+		}
+	}
+	labels := []string{"pipelined"}
+	if inter {
+		labels = append(labels, "send-between-receives")
+	}
+	if c.Hold {
+		labels = append(labels, "replies-of-several-calls-in-one-delivery")
+	}
+	st.Case(HashOf(c), inter || c.Hold, func() interface{} { return c }, labels...)
+	return err
+}
+
+var propC02Pipe = Register(Prop[PipeCase]{ID: "C02", Name: "C02pipe", Pending: true, Check: checkPipe})
+
+func TestC02Pipeline(t *testing.T) {
+	p := propC02Pipe
+	p.Gen = genPipe
+	RunRapid(t, p, "C02Pipeline")
 }
